@@ -26,9 +26,9 @@ P = {
  "C09": ("other", "E5 GF(2) bit-vector proofs of the cell codec for all depth pairs + E3 ordered-emission shape + who-may-construct",
   "Proves for all 465 (depth <= depth_max) pairs and all hash bits: every decoder inverts build_raw_value. Necessary conditions: producers emit in z-order (recursion shape, sorted roots), BMOC values are only constructed by the builder finalisers, views share the proved decoders.", "§5 C09"),
  "C10": ("other", "E7 lossy int->f64->sqrt->int chain rule + use-def identity of region boundaries",
-  "Necessary conditions: on every returning path a float square root used as a ring index is either exact (operand < 2^52 under the facts of that path) or corrected against the integer it came from; no 32-bit product/shift/sum of the ring arithmetic can wrap for depth <= 29; to_ring and from_ring use the same two boundary terms and one triangular-number definition. Bijectivity / ordering are not decided.", "§5 C10"),
+  "Necessary conditions: on every returning path a float square root used as a ring index is either exact (operand < 2^52 under the facts of that path) or corrected against the integer it came from; no 32-bit product/shift/sum of the ring arithmetic can wrap for depth <= 29; to_ring and from_ring use the same two boundary terms and one triangular-number definition. Decided for all (i, j) per depth and base cell, as polynomial identities: the ring number to_ring assigns is the model's n(2 + b div 4) - (i + j + 2), and the first index of that ring is the number of cells of the rings before it in each of the three regions; the ring layout helpers have their closed forms in nside. The position inside the ring, from_ring's inverse arithmetic and hence bijectivity are not decided.", "§5 C10"),
  "C11": ("other", "E1 must-facts + E7 + closed-form identities",
-  "Decides: out-of-range cell numbers, latitudes and offsets never reach a normal return of the RING accessors; necessary: exact integer square root in center_of_projected_cell. Containment / round trip are not decided.", "§5 C11"),
+  "Decides: out-of-range cell numbers, latitudes and offsets never reach a normal return of the RING accessors; necessary: exact integer square root in center_of_projected_cell; n_hash, first_hash_* and n_isolatitude_rings equal their closed forms as polynomials in nside (4i cells in polar ring i, 4 nside in equatorial rings). Containment / round trip are not decided.", "§5 C11"),
  "C12": ("other", "control dependence + sortedness typestate + provenance (necessary conditions only)",
   "Necessary conditions: a cell in the vertex-cell list is never discarded; the list is built from every polygon vertex and sorted before binary search; 'full' only under n == 4 vertices inside; roots sorted; every polygon vertex enters the maximum that sizes the bounding cone. Tightness and the point-in-polygon predicate are not decided.", "§5 C12"),
  "C13": ("other", "E1 must-facts + typestate/shape rules",
